@@ -137,6 +137,23 @@ class Machine:
                     raise Unmodelled('mov width')
                 s.store(a, 8, R[ops[1]])
                 return None
+        if mn in ('and', 'or', 'xor') and len(ops) == 2 and ops[0] not in R and re.match(r'^0x[0-9a-f]+$', ops[1]):
+            # logical operation on a memory operand with an immediate (e.g. masking the saved MXCSR image)
+            a, n = s.memop(ops[0])
+            k = int(ops[1], 16)
+            if n == 8 and k >= 1 << 31:
+                k |= 0xFFFFFFFF00000000 if k < 1 << 32 else 0      # imm32 is sign-extended for a 64-bit operand
+            v = s.load(a, n)
+            kv = z3.BitVecVal(k & ((1 << (8 * n)) - 1), 8 * n)
+            s.store(a, n, v & kv if mn == 'and' else v | kv if mn == 'or' else v ^ kv)
+            s.havoc_arith_flags()
+            return None
+        if mn in ('and', 'or') and len(ops) == 2 and ops[0] in R and re.match(r'^0x[0-9a-f]+$', ops[1]):
+            k = int(ops[1], 16)
+            kv = z3.BitVecVal(k, 64)
+            R[ops[0]] = R[ops[0]] & kv if mn == 'and' else R[ops[0]] | kv
+            s.havoc_arith_flags()
+            return None
         if mn == 'xor' and len(ops) == 2 and ops[0] in R and ops[0] == ops[1]:
             R[ops[0]] = z3.BitVecVal(0, 64)
             s.havoc_arith_flags()
